@@ -50,8 +50,17 @@ def gen_data(ctx, d, nrec):
         frag = rseq(rng, rng.randrange(0, 4)) + tag + p1 + bc + rc(p2) + rc(tag) + rseq(rng, rng.randrange(0, 4))
         if rng.random() < 0.3:
             frag = rc(frag)
+        if rng.random() < 0.06:
+            # concatemer: two amplicons in one read (a 1 -> n record for obimultiplex)
+            tag2 = rng.choice(tags)
+            frag = frag + rseq(rng, rng.randrange(0, 3)) + tag2 + pf + rng.choice(barcodes) + rc(pr) + rc(tag2)
         L = min(len(frag), rng.choice([60, 80, 100]))
         fw, rv = frag[:L], rc(frag)[:L]
+        if rng.random() < 0.05:
+            # degenerate mates: reads shorter than a 4-mer / a primer (trimmed reads)
+            fw = fw[:rng.choice([1, 2, 3, 5])]
+        if rng.random() < 0.03:
+            rv = rv[:rng.choice([1, 2, 3, 7])]
         q = lambda n: "".join(chr(33 + rng.randrange(2, 41)) for _ in range(n))
         F.write("@r%05d\n%s\n+\n%s\n" % (i, fw, q(len(fw))))
         R.write("@r%05d\n%s\n+\n%s\n" % (i, rv, q(len(rv))))
@@ -87,6 +96,8 @@ def command_lines(d, pf, pr):
         ("obicomplement", ["obicomplement", s]),
         ("obipairing", ["obipairing", "-F", os.path.join(d, "F.fastq"), "-R", os.path.join(d, "R.fastq"), "--min-overlap", "10"]),
         ("obimultiplex", ["obimultiplex", "-t", os.path.join(d, "ngsfilter.txt"), "-e", "2", "--keep-errors", asm]),
+        ("obimultiplex-whole", ["obimultiplex", "-t", os.path.join(d, "ngsfilter.txt"), "-e", "2", "--keep-errors", s]),
+        ("obimultiplex-whole-noerr", ["obimultiplex", "-t", os.path.join(d, "ngsfilter.txt"), "-e", "2", s]),
         ("obipcr", ["obipcr", "--forward", pf, "--reverse", pr, "-e", "2", "-L", "200", os.path.join(d, "templates.fasta")]),
         ("obicount", ["obicount", s]),
         ("obisummary", ["obisummary", "--json-output", s]),
@@ -152,7 +163,8 @@ def _run(ctx, broken, d):
     if bindir is None:
         broken.append(dict(kind="command-build", detail=err))
         return
-    nrec = 120 if ctx.quick else 1500
+    # inputs larger than the 1 MiB read buffer: the reader then delivers several chunks (= several worker batches)
+    nrec = 5000 if ctx.quick else 20000
     pf, pr = gen_data(ctx, d, nrec)
     # the input of obimultiplex: one reference run of obipairing
     rc0, out0, err0 = run_cmd(bindir, ["obipairing", "-F", os.path.join(d, "F.fastq"), "-R", os.path.join(d, "R.fastq"), "--min-overlap", "10"], 1, 2000, 1)
